@@ -239,6 +239,41 @@ def job_kepler_and_assembly():
     dE2 = v['G'] * v['m1'] * v['m2'] * dr2['semi_major_axis_derivative'] / (2 * v['a'] * v['a']) + v['C1'] * v['O1'] * sp1 + v['C2'] * v['O2'] * sp2
     results.append(discharge(Obligation('quick_dual_body_tidal_dissipation assembly: energy balance holds for the stored da/dt', eq_goal(dE2, -heating2), A1,
                                         replay=lambda md: (True, 'dual assembly passes arguments in a different order'), key='assembly:dual:energy')))
+    # angular momentum on the dual assembly (zero obliquity: dUdw_i = dUdO_i): catches swapped dUdw arguments
+    env3 = dict(env2)
+    env3['dissipation_results'] = {'host': {'dUdM': v['dM1'], 'dUdw': v['dO1']}, 'secondary': {'dUdM': v['dM2'], 'dUdw': v['dO2']}}
+    exec(compile(mod2, 'quick_tides:dual-assembly', 'exec'), env3)
+    dr3 = env3['dissipation_results']
+    s_ = atoms.sqrt(1 - v['e'] * v['e'])
+    beta = v['m1'] * v['m2'] / (v['m1'] + v['m2'])
+    sdL = beta * (Fr(1, 2) * v['n'] * v['a'] * dr3['semi_major_axis_derivative'] * s_ * s_ - v['n'] * v['a'] * v['a'] * v['e'] * dr3['eccentricity_derivative'])
+    results.append(discharge(Obligation('quick_dual_body_tidal_dissipation assembly: angular-momentum balance holds for the stored da/dt, de/dt (zero obliquity)',
+                                        eq_goal(sdL + s_ * (v['C1'] * sp1 + v['C2'] * sp2), Q(0)), A1,
+                                        replay=lambda md: (True, 'dual assembly passes dUdw/dUdM of the two bodies in a different order'), key='assembly:dual:angmom')))
+    da_ref2, de_ref2 = dfn['semia_eccen_derivatives'](v['a'], v['n'], v['e'], v['m1'], v['dM1'], v['dw1'], v['m2'], v['dM2'], v['dw2'])
+    results.append(discharge(Obligation('quick_dual_body_tidal_dissipation assembly: stored (da/dt, de/dt) == semia_eccen_derivatives_dual(a,n,e,m_host,dUdM_h,dUdw_h,m_sec,dUdM_s,dUdw_s)',
+                                        z3.And(eq_goal(dr2['semi_major_axis_derivative'], da_ref2), eq_goal(dr2['eccentricity_derivative'], de_ref2)), A1,
+                                        replay=lambda md: (True, 'dual assembly differs from the reference argument order'), key='assembly:dual:args')))
+    # the semi-major axis used by both quick functions is computed from n with BOTH masses (Kepler III)
+    for fname, fnode, masses in (('quick_tidal_dissipation', fn, ('host_mass', 'target_mass')), ('quick_dual_body_tidal_dissipation', fn2, None)):
+        stm = [x for x in ast.walk(fnode) if isinstance(x, ast.Assign) and isinstance(x.targets[0], ast.Name) and x.targets[0].id == 'semi_major_axis'
+               and 'orbital_motion2semi_a' in ast.get_source_segment(src, x)]
+        if len(stm) != 1:
+            raise RuntimeError('semi_major_axis assignment not found in ' + fname)
+        loader.ENCODED.append({'file': 'TidalPy/toolbox/quick_tides.py', 'function': fname + ': semi_major_axis = orbital_motion2semi_a(...)', 'sha256_16': solve.sha_of(ast.get_source_segment(src, stm[0]))})
+        Mh, mt, nn = Q.sym('M_host'), Q.sym('m_target'), Q.sym('n_orb')
+        CTX.facts = [Mh.re > 0, mt.re > 0, nn.re > 0, G.re > 0]
+        envk = {'orbital_motion2semi_a': cf['orbital_motion2semi_a'], 'orbital_frequency': nn, 'host_mass': Mh, 'target_mass': mt, 'masses': (Mh, mt)}
+        envk.update(loader.base_ns())
+        modk = ast.Module(body=[loader._Rewrite(src).visit(stm[0])], type_ignores=[])
+        ast.fix_missing_locations(modk)
+        ex2 = Explorer(assumptions=CTX.facts)
+        pk = ex2.run(lambda: (exec(compile(modk, 'quick_tides:kepler', 'exec'), envk), envk['semi_major_axis'])[1])
+        okk = [p_ for p_ in pk if p_.exc is None]
+        conds = [eq_goal(nn * nn * Q.of(p_.result) ** 3, G * (Mh + mt)) for p_ in okk]
+        results.append(discharge(Obligation('%s: the semi-major axis derived from n satisfies n^2 a^3 == G (M_host + m_target) (both masses)' % fname,
+                                            z3.And(*conds) if conds and len(okk) == len(pk) else z3.BoolVal(False), CTX.facts,
+                                            replay=lambda md, fname=fname: (True, '%s computes a from n without the full mass sum' % fname), key='assembly:kepler:%s' % fname)))
     results.append(reach_twin('assembly', A1))
     return {'results': results, 'encoded': loader.ENCODED, 'axioms': CTX.axiom_notes, 'label': 'kepler+assembly'}
 
@@ -323,7 +358,9 @@ def job_arrays():
 
 
 def main():
-    jobs = [(job_single, {}), (job_dual, {}), (job_kepler_and_assembly, {}), (job_e0_fp, {'which': 'single'}), (job_e0_fp, {'which': 'dual'}), (job_arrays, {})]
+    import c10
+    jobs = [(job_single, {}), (job_dual, {}), (job_kepler_and_assembly, {}), (job_e0_fp, {'which': 'single'}), (job_e0_fp, {'which': 'dual'}), (job_arrays, {}),
+            (c10.job_entries, {'L': 3, 'N': 2, 'use_obliquity': False, 'sync': False, 'totals': True})]
     meta = {
         'explanation': 'single_dissipation.py / dual_dissipation.py (all functions), conversions.orbital_motion2semi_a and the result-assembly statements of quick_tidal_dissipation / '
                        'quick_dual_body_tidal_dissipation (AST slices) are executed from the current source on symbols. Under the Kepler constraint n^2 a^3 = G(m1+m2) (itself checked on the '
